@@ -506,8 +506,22 @@ def install_arrays(it):
     it.overrides["np.zeros"] = _PyCall(lambda shape, **k: full(shape, 0))
     it.overrides["np.ones"] = _PyCall(lambda shape, **k: full(shape, 1))
     it.overrides["np.eye"] = _PyCall(lambda n, **k: NDArr([[1 if i == j else 0 for j in range(n)] for i in range(n)], (n, n)))
-    it.overrides["np.array"] = _PyCall(lambda x, **k: x.copy() if isinstance(x, NDArr) else NDArr(x))  # np.array copies
-    it.overrides["np.asarray"] = _PyCall(lambda x, **k: x if isinstance(x, NDArr) else NDArr(x))  # np.asarray does not
+    def _to_dtype(x, dtype):
+        """conversion to double precision: every single-precision scalar becomes the double of the same value; None if nothing has to change"""
+        if dtype is None or "float64" not in str(dtype) or not isinstance(x, NDArr) or not any(isinstance(v, NPFloat32) for v in x.flat()):
+            return None
+        conv = lambda v: [conv(e) for e in v] if isinstance(v, list) else (float(v) if isinstance(v, NPFloat32) else v)  # noqa: E731
+        return NDArr(conv(x.tolist()), x.shape)
+
+    def array(x, dtype=None, **k):  # np.array copies
+        x = x if isinstance(x, NDArr) else NDArr(x)
+        return _to_dtype(x, dtype) or x.copy()
+
+    def asarray(x, dtype=None, **k):  # np.asarray does not, unless the type has to change
+        x = x if isinstance(x, NDArr) else NDArr(x)
+        return _to_dtype(x, dtype) or x
+    it.overrides["np.array"] = _PyCall(array)
+    it.overrides["np.asarray"] = _PyCall(asarray)
     it.overrides["np.ascontiguousarray"] = it.overrides["np.asarray"]
     it.overrides["np.dot"] = _PyCall(dot)
     it.overrides["np.reshape"] = _PyCall(lambda a, shape, **k: (a if isinstance(a, NDArr) else NDArr(a)).reshape(shape))
